@@ -371,6 +371,10 @@ def h_net_sample(w, st, rec):
     if out[0] == "exc":
         if failed_peer:
             w.probes["peer_fault.predict.raised"] += 1
+        elif isinstance(out[1], ValueError) and G.seed_value(rec.get("seed")) is not None \
+                and G.seed_value(rec.get("seed")) >= 2 ** 32:
+            # np.random.seed, the library's own seeding idiom, rejects seeds >= 2**32: legitimate, if consistent
+            w.probes["seed>=2**32.rejected"] += 1
         else:
             w.violate("exception_contract", site + ":valid_arguments",
                       {"raised": type(out[1]).__name__, "msg": str(out[1])[:200], "n": rec.get("n")})
